@@ -1,6 +1,9 @@
 package main
 
 import (
+	"sync"
+	"time"
+
 	"github.com/fluffle/goirc/client"
 )
 
@@ -68,7 +71,7 @@ func c11Text(r *Rand, n int) []byte {
 		l = r.Range(2000, 3200)
 	}
 	seps := []byte(".:;,!?\"'")
-	style := r.Intn(7)
+	style := r.Intn(8)
 	b := make([]byte, l)
 	for i := range b {
 		var c byte
@@ -109,6 +112,12 @@ func c11Text(r *Rand, n int) []byte {
 				c = ' '
 			default:
 				c = byte('a' + r.Intn(26))
+			}
+		case 7: // rows of UTF-8 continuation bytes / Latin-1 bytes, a few spaces
+			if r.Intn(40) == 0 {
+				c = ' '
+			} else {
+				c = byte(0x80 + r.Intn(0x40))
 			}
 		default: // only spaces / only separators
 			if r.Bool() {
@@ -163,6 +172,11 @@ func c11Gen(r *Rand, tier string, scale int, emit func(Fields)) {
 	ms := []string{"Privmsg", "Notice", "Ctcp", "CtcpReply", "Privmsgln", "Privmsgf"}
 	for i := 0; i < nwire; i++ {
 		n := c11SplitLens[r.Intn(len(c11SplitLens))]
+		if i%10 == 0 {
+			// many pieces (more than the 32-slot output queue holds) against a server that pauses
+			emit(F("wire", r.Pick(ms), r.Pick(targets), r.Pick(verbs), r.Bytes(r.Range(600, 1200), []byte("abcdefgh ijkl. mnop, qrs")), 13, "slow"))
+			continue
+		}
 		emit(F("wire", r.Pick(ms), r.Pick(targets), r.Pick(verbs), c11Text(r, n), n))
 	}
 }
@@ -185,6 +199,22 @@ func c11Exec(in Fields) (obs Fields) {
 			args = []string{t, ctcp, text}
 		} else {
 			args = []string{t, text}
+		}
+		if len(in) > 6 && in.S(6) == "slow" {
+			// the server end pauses before each of its first reads: the 32-slot queue fills up
+			// while the method is still handing pieces to Raw
+			var pmu sync.Mutex
+			left := 8
+			c11ws.Pace = func() int {
+				pmu.Lock()
+				defer pmu.Unlock()
+				if left > 0 {
+					left--
+					time.Sleep(25 * time.Millisecond)
+				}
+				return 0
+			}
+			defer func() { c11ws.Pace = nil }()
 		}
 		w := c11ws.Call(func() { callMethod(c11ws.Conn, m, args) })
 		return F(splitCRLF(w))
